@@ -440,7 +440,12 @@ def go_file_keys(prog):
     return keys
 
 
-def observe(binary, argv, cwd, prog, out="out", limit=30.0, long_limit=240.0, env=None):
+def clip(s, n):
+    """head and tail of a long output"""
+    return s if len(s) <= n else s[:n // 2] + "\n...[%d bytes left out]...\n" % (len(s) - n) + s[-n // 2:]
+
+
+def observe(binary, argv, cwd, prog, out="out", limit=30.0, long_limit=600.0, env=None):
     """one run of thriftgo. A run that exceeds `limit` is repeated once with `long_limit` (a loaded machine
     must not turn a slow crash into a hang); only a run that exceeds that too is a hang."""
     out_dir = os.path.join(cwd, out)
@@ -486,7 +491,7 @@ def observe(binary, argv, cwd, prog, out="out", limit=30.0, long_limit=240.0, en
     return {"exit": ex, "rc": rc, "diag": diag, "crash": bool(crash), "crash_marks": crash,
             "files": sorted(files, key=lambda x: (str(x[0]), x[1])), "other_files": others, "wall_s": round(wall, 3),
             "slow": lim != limit,
-            "stdout": so[-1500:], "stderr": se[-2500:]}
+            "stdout": clip(so, 1500), "stderr": clip(se, 3000)}
 
 
 MECH_PATTERNS = [
@@ -502,7 +507,8 @@ MECH_PATTERNS = [
     ("check.enums", r"has duplicated value|duplicate value -?\d+ between|enum overflow"),
     ("check.structs", r"duplicated field ID|duplicated field name"),
     ("check.unions", r"provides another default value"),
-    ("check.functions", r"duplicated function name|oneway function must be void|oneway methods can't throw"),
+    ("check.functions", r"duplicated function name|oneway function must be void|oneway methods can't throw|"
+                        r"duplicated (argument|exception) (ID|name)"),
     ("resolve.names", r"multiple definition of"),
     ("resolve.type", r"undefined type|unexpected type category|invalid type name"),
     ("resolve.undefinedValue", r"undefined value"),
@@ -528,3 +534,9 @@ def mechanism_of(obs):
         if re.search(pat, text, re.M):
             return name
     return "?"
+
+
+def same_mechanism(model, observed):
+    """the diagnostic does not tell at which stage an option / a backend name was rejected"""
+    n = lambda m: m.replace("targets.options", "backend.options").replace("targets.lang", "backend.lang")  # noqa: E731
+    return n(model) == n(observed)
